@@ -926,7 +926,7 @@ scpi_bool_t SCPI_ParamToUInt64(scpi_t * context, scpi_parameter_t * parameter, u
 /**
  * IEEE 488.2 allows white space between mantissa and exponent and after the
  * exponent letter ("1 E 3"), strtod() and strtof() stop at it. Provide the text
- * of such a token without the white space.
+ * of such a token without the white space and without its suffix.
  * @param parameter decimal numeric token
  * @param buf buffer for the copy
  * @param buflen length of buf
@@ -946,13 +946,17 @@ static const char * numberWithoutWs(const scpi_parameter_t * parameter, char * b
     }
 
     for (i = 0; i < parameter->len; i++) {
-        if (parameter->ptr[i] == ' ' || parameter->ptr[i] == '\t') {
+        char c = parameter->ptr[i];
+        if (c == ' ' || c == '\t') {
             continue;
+        }
+        if (!isdigit((unsigned char) c) && c != '+' && c != '-' && c != '.' && c != 'e' && c != 'E') {
+            break; /* suffix: not part of the number */
         }
         if (j + 1 >= buflen) {
             return parameter->ptr;
         }
-        buf[j++] = parameter->ptr[i];
+        buf[j++] = c;
     }
     buf[j] = '\0';
     return buf;
